@@ -350,7 +350,7 @@ func (e *FnEnc) appendBuiltin(v ssa.Value, c *ssa.CallCommon, args []Val) {
 func (e *FnEnc) havocAll(why string) {
 	for _, name := range sortedKeys(e.heapVars) {
 		hv := e.heapVars[name]
-		if name == AllocVar.Name || strings.HasPrefix(name, "VIS.") || strings.HasPrefix(name, "POS.") || strings.HasPrefix(name, "G.") {
+		if name == AllocVar.Name || strings.HasPrefix(name, "VIS.") || strings.HasPrefix(name, "POS.") || strings.HasPrefix(name, "GH.") {
 			continue
 		}
 		old := e.heap(hv)
@@ -414,6 +414,7 @@ func (e *FnEnc) runDefers() {
 		pre := copyState(e.cur)
 		e.curGuard = and(saved, d.guard)
 		e.call(nil, &d.d.Call, d.d)
+		e.applyCallUpdates(nil, &d.d.Call)
 		// merge: state changes apply only under d.guard
 		for _, name := range sortedKeys(e.cur) {
 			if e.cur[name] != pre[name] {
@@ -648,4 +649,80 @@ func (e *FnEnc) sortModel(name string, c *ssa.CallCommon, args []Val, in ssa.Ins
 		e.assume(fmt.Sprintf("(forall ((i!s Int) (j!s Int)) (=> (and (<= 0 i!s) (< i!s j!s) (< j!s %s)) (not %s)))", n, lji))
 	}
 	return true
+}
+
+// applyCallUpdates runs the "call NAME update G = expr" clauses of the current contract after a call to NAME.
+func (e *FnEnc) applyCallUpdates(v ssa.Value, c *ssa.CallCommon) {
+	if e.con == nil || len(e.con.CallUpdates) == 0 {
+		return
+	}
+	names := callNames(c)
+	var todo []CallUpdate
+	for _, u := range e.con.CallUpdates {
+		if names[u.Callee] {
+			todo = append(todo, u)
+		}
+	}
+	if len(todo) == 0 {
+		return
+	}
+	env := e.specEnv(e.cur, e.initState, nil)
+	env.site = e.curBlock
+	if v != nil {
+		if rv, ok := e.vals[v]; ok {
+			if rv.Tup != nil {
+				for k, x := range rv.Tup {
+					env.vars[fmt.Sprintf("result%d", k)] = x
+				}
+				env.vars["result"] = rv
+			} else {
+				env.vars["result"] = rv
+				env.vars["result0"] = rv
+			}
+		}
+	}
+	for k, a := range c.Args {
+		env.vars[fmt.Sprintf("a%d", k)] = e.val(a)
+	}
+	newVals := map[string]string{}
+	for _, u := range todo {
+		hv, ok := e.ghosts[u.Name]
+		if !ok {
+			e.bindFail("call update "+u.Name, "no such ghost variable")
+			continue
+		}
+		x, err := env.EvalVal(u.Expr)
+		if err != nil {
+			e.bindFail("call."+mangle(u.Callee)+".update."+u.Name, err.Error()+" in "+u.Src)
+			continue
+		}
+		newVals[hv.Name] = e.define(hv.Name, hv.Sort, x.T)
+	}
+	for k, nv := range newVals {
+		e.cur[k] = nv
+	}
+}
+
+// callNames: the names a "call NAME update" clause may use for the callee of c.
+func callNames(c *ssa.CallCommon) map[string]bool {
+	names := map[string]bool{}
+	if f := c.StaticCallee(); f != nil {
+		names[calleeName(f)] = true
+		names[funcKeyName(f)] = true
+		names[f.Name()] = true
+		if f.Pkg != nil {
+			names[f.Pkg.Pkg.Name()+"."+f.Name()] = true
+		}
+	} else if c.IsInvoke() {
+		names[c.Method.Name()] = true
+		names[types.TypeString(c.Value.Type(), nil)+"."+c.Method.Name()] = true
+	} else {
+		names[c.Value.Name()] = true
+		if g, ok := c.Value.(*ssa.UnOp); ok {
+			if gl, ok := g.X.(*ssa.Global); ok {
+				names[gl.Name()] = true
+			}
+		}
+	}
+	return names
 }
